@@ -134,6 +134,21 @@ class Interp(ExprMixin, StmtMixin):
             for a in node.args:
                 pass
             return PyC(None)
+        if isinstance(f, ast.Name) and f.id in ("all", "any") and f.id not in self.st.env and len(node.args) == 1 \
+                and isinstance(node.args[0], ast.GeneratorExp) and not self.st.spec_mode:
+            box = []
+            comp = self.comprehension(node.args[0], "seq", defer_box=box)
+            val = self._quant([comp], node, f.id == "all")
+            for dcond, exc in box:
+                if self.st.qctx:
+                    self.partial(dcond, exc, node, "generator-element")
+                    continue
+                if not self.branch(dcond, node.lineno):
+                    # some element cannot be evaluated: all()/any() either reaches it (raises) or short-circuits before it
+                    if self.branch(L.fresh("reaches_undefined", L.B), node.lineno):
+                        raise RaisedEx(ExcVal(exc), node.lineno)
+                    return ZB(f.id != "all")
+            return val
         callee = self.eval(f)
         args = []
         for a in node.args:
@@ -252,7 +267,15 @@ class Interp(ExprMixin, StmtMixin):
         tag = base_tag(getattr(recv, "tag", None))
         h = R.METHODS.get((tag, bm.name))
         if h is None and isinstance(recv, ZV) and tag in R.TAG_CLASS:
-            tgt = source.resolve_method(R.TAG_CLASS[tag], bm.name)
+            cls = R.TAG_CLASS[tag]
+            # a call on the function's own `self` resolves through the class the function is defined in
+            own = self.contract.target.split(":")
+            if "." in own[1] and self.entry_env and any(isinstance(v, ZV) and v.term.eq(recv.term) for k, v in list(self.entry_env.items())[:1]):
+                own_cls = own[0] + ":" + own[1].rsplit(".", 1)[0]
+                r0 = source.resolve_method(own_cls, bm.name)
+                if r0 and r0 in R.CONTRACTS:
+                    cls = own_cls
+            tgt = source.resolve_method(cls, bm.name)
             if tgt and tgt in R.CONTRACTS:
                 return self.apply_contract(R.CONTRACTS[tgt], [recv] + list(args), kwargs, node)
         if h is None:
@@ -551,7 +574,7 @@ class Interp(ExprMixin, StmtMixin):
 
     def b_getattr(self, args, kwargs, node):
         obj, name = args[0], args[1]
-        if not (isinstance(name, PyC) and isinstance(name.value, str)):
+        if not (isinstance(name, PyC) and isinstance(name.value, str)) or (isinstance(obj, ZV) and base_tag(obj.tag) == "Rewriter"):
             h = R.EXTERNALS.get("builtins.getattr:dynamic")
             if h:
                 return h.f(self, args, kwargs, node)
